@@ -21,19 +21,19 @@ func init() {
 
 	register(&core.Rule{ID: "C19.1", Prop: "C19", MinSites: 8,
 		Desc: "Engine methods validate first: every use of e.eng is dominated by Validate()==nil, the failure edge returns Validate's error (-1 for CountConnections); Validate checks empty before shutdown",
-		Run: runC19_1})
+		Run:  runC19_1})
 	register(&core.Rule{ID: "C19.2", Prop: "C19", MinSites: 6,
 		Desc: "EventLoop.Register/Enroll/Execute: isShutdown() ↦ ErrEngineInShutdown first, nil argument ↦ documented error before use",
-		Run: runC19_2})
+		Run:  runC19_2})
 	register(&core.Rule{ID: "C19.3", Prop: "C19", MinSites: 4,
 		Desc: "Engine.Stop and the package-level Stop return nil only on the isShutdown() edge; the ctx.Done() arm returns ctx.Err()",
-		Run: runC19_3})
+		Run:  runC19_3})
 	register(&core.Rule{ID: "C19.5", Prop: "C19", MinSites: 2,
 		Desc: "every function that submits a register task and waits for its completion is reached only behind an isShutdown()==false test (in the function itself or in each of its in-package callers): on a stopped engine the task would never run and the call never return",
-		Run: runC19_5})
+		Run:  runC19_5})
 	register(&core.Rule{ID: "C19.4", Prop: "C19", MinSites: 3,
 		Desc: "enroll worker: exactly one send on the result channel on every path, channel buffered (cap >= 1) and closed by defer",
-		Run: runC19_4})
+		Run:  runC19_4})
 }
 
 func runC19_1(c *core.Ctx) {
